@@ -7,7 +7,7 @@ HOOK_COMMITS = []
 
 ENGINES = [
     {'name': 'E1-input-config-explorer', 'path': 'vf/core.py, vf/univ.py, vf/oracles.py',
-     'serves_properties': ['C01'],
+     'serves_properties': ['C01', 'C02', 'C03'],
      'kind_free_text': 'explicit enumeration of every input shape/value/configuration inside stated bounds; real code run on each; compared with a reference model on every case'},
 ]
 
@@ -21,6 +21,17 @@ CHECKS = {
             'Trusted: vf/oracles.py (cell recursion tied to explicit path enumeration at run start), CPython float arithmetic. Small-scope hypothesis for lengths above the bound.',
             'DESIGN.md section 4 C01'),
 }
+
+CHECKS['C02'] = (E1 + ' (differential between engines)', 'E1-input-config-explorer',
+    'The C01 universe plus None/0 encodings, max_dist thresholds, use_pruning, only_ub, max_length_diff and ndim 2..3 is pushed through the Python engine and four C routes '
+    '(distance_fast, distance(use_c=True), distance_matrix(use_c=True), the exported C function via ctypes); every result must equal the Python result within 4 ulp or both be inf.',
+    'Trusted: the Python engine as reference (C01/C11 tie it to the definition). Settings whose meaning differs by documentation (window=0, max_length_diff=0) and pruning under an invalid bound are outside the universe.',
+    'DESIGN.md section 4 C02')
+CHECKS['C03'] = (E1 + ' with exhaustive per-case threshold sets (two-run metamorphic oracle)', 'E1-input-config-explorer',
+    'For every case of the universe every threshold at which the pruning logic can change branch (one per gap between consecutive cell optima / distance / Euclidean bound) is tried as max_dist on 9 routes '
+    '(Python/C x distance, warping_paths, keep_int_repr, compact, distance_matrix); use_pruning is tried in every configuration in which C03 calls the bound valid. Result must be the unbounded result or inf as the property states.',
+    'Trusted: the same routine without max_dist as oracle (C01/C02/C04 cover it); thresholds within 1e-9 relative of the true value are not judged.',
+    'DESIGN.md section 4 C03')
 
 ALL = ['C%02d' % i for i in range(1, 21)]
 NOT_APPLICABLE = {p: PENDING for p in ALL if p not in CHECKS}
